@@ -1,6 +1,7 @@
 //! hcv: conformance harness binding the TLA+ specifications in /verif/spec to Heathcliff.
 mod c08;
 mod c09;
+mod c10;
 mod c11;
 mod c13;
 mod c16;
@@ -74,6 +75,7 @@ fn main() {
         "c20" => c20::main(&args[2..]),
         "c13" => c13::main(&args[2..]),
         "c09" => c09::main(&args[2..]),
+        "c10" => c10::main(&args[2..]),
         "c11" => c11::main(&args[2..]),
         "c16" => c16::main(&args[2..]),
         "ser-layout" => ser::layout_events(&args[2], args[3].parse().unwrap()),
